@@ -157,6 +157,16 @@ func (v *version) effTwin(b []byte) []byte {
 }
 
 func (v *version) scoreEnumerations(thorough bool, zero []byte, mand []int) {
+	// thorough, v2/v3: every base class with every temporal assignment (v2: 72,900; v3: 259,200 objects)
+	if thorough && v.name != "40" {
+		var temporal []int
+		for i, mt := range v.metrics {
+			if mt.group == 1 {
+				temporal = append(temporal, i)
+			}
+		}
+		v.enumerate(zero, append(append([]int{}, mand...), temporal...), v.opScore)
+	}
 	// (a) every base class (all optional metrics not defined) — exhaustive for v2 (729) and v3 (2,592);
 	//     v4 has 104,976 base classes: exhaustive in thorough, a stride sample in quick
 	cnt := 0
